@@ -169,6 +169,9 @@ pub struct GenState {
     /// an eighth of the runs also write values of 64 KiB and more (lengths that no longer fit
     /// 16 bits: varint width, block and blob framing)
     pub huge_values: bool,
+    /// a sixth of the sequential runs also write the empty value now and then (legal, and the
+    /// one value that carries no unique id; the concurrent engine never does)
+    pub empty_values: bool,
 }
 
 pub fn fifo_key(i: u64, descending: bool) -> Vec<u8> {
@@ -250,7 +253,7 @@ pub fn gen_cfg(r: &mut Rng, p: &Profile) -> CfgSpec {
     CfgSpec {
         blob: if blob {
             Some(BlobSpec {
-                threshold: *r.pick(&[1u32, 8, 24, 64]),
+                threshold: *r.pick(&[0u32, 1, 1, 8, 8, 24, 24, 64, 64]),
                 file_target: *r.pick(&[1u64, 128, 512, 64 << 20]),
                 staleness: *r.pick(&[0.0f32, 0.01, 0.25, 0.5, 1.0]),
                 age_cutoff: *r.pick(&[0.0f32, 0.25, 0.5, 1.0]),
@@ -301,6 +304,9 @@ pub fn gen_cfg(r: &mut Rng, p: &Profile) -> CfgSpec {
 
 pub fn gen_value(st: &mut GenState, r: &mut Rng, cfg: &CfgSpec) -> Bytes {
     st.next_value_id += 1;
+    if st.empty_values && r.chance(1, 8) {
+        return Bytes(vec![]);
+    }
     let id = st.next_value_id;
     let mut v = format!("v{id}:").into_bytes();
     let thr = cfg.blob.as_ref().map_or(32, |b| b.threshold as usize);
@@ -623,6 +629,14 @@ pub fn gen_run(property: &str, seed: u64, p: &Profile) -> RunSpec {
     // part in a compaction (the rule in pick_blob_files_to_rewrite)
     let shared_prelude = p.shared_blob_prelude && cfg.blob.is_some() && r.chance(1, 4);
     let shared_focus = shared_prelude && !focus && r.chance(1, 2);
+    // the same shape for any tree ("last-level focus", a sixth of the runs of the profiles that
+    // have leveled_focus): a multi-table last level built by the prelude, then short histories of
+    // writes / deletes / flushes / leveled compactions that merge L0 straight into that level
+    // while picking only the overlapping tables - where tombstones are evicted
+    let llf = !focus && !shared_focus && p.leveled_focus && !p.fifo && r.chance(1, 6);
+    if llf {
+        cfg.block_size = *r.pick(&[64u32, 64, 128]);
+    }
     if shared_focus {
         if let Some(b) = cfg.blob.as_mut() {
             b.staleness = *r.pick(&[0.01f32, 0.1, 0.25]);
@@ -639,7 +653,7 @@ pub fn gen_run(property: &str, seed: u64, p: &Profile) -> RunSpec {
     } else {
         gen_keys(&mut r, nkeys)
     };
-    let keys = if (focus || shared_focus) && !p.fifo && keys.len() < 24 {
+    let keys = if (focus || shared_focus || llf) && !p.fifo && keys.len() < 24 {
         let mut ks: std::collections::BTreeSet<Bytes> = keys.into_iter().collect();
         for k in gen_keys(&mut r, 30) {
             ks.insert(k);
@@ -676,10 +690,15 @@ pub fn gen_run(property: &str, seed: u64, p: &Profile) -> RunSpec {
         weights[W_SCAN] = p.w[W_SCAN].min(3);
         n_ops_override = Some(60 + r.usize(80));
     }
-    if shared_focus {
-        fixed_leveled = Some((1, *r.pick(&[1u64, 1, 64, 1024]), *r.pick(&[2.0f32, 10.0])));
+    if shared_focus || llf {
+        fixed_leveled = Some((
+            if llf { *r.pick(&[1u8, 2, 2, 3]) } else { 1 },
+            *r.pick(&[1u64, 1, 64, 1024]),
+            *r.pick(&[2.0f32, 10.0]),
+        ));
         weights = [0; 18];
         weights[W_WRITE] = 40;
+        weights[W_BATCH] = if llf { 6 } else { 0 };
         weights[W_FLUSH_ACTIVE] = 16;
         weights[W_LEVELED] = 22;
         weights[W_ROTATE] = 2;
@@ -691,7 +710,7 @@ pub fn gen_run(property: &str, seed: u64, p: &Profile) -> RunSpec {
         n_ops_override = Some(30 + r.usize(50));
     }
     for (i, w) in weights.iter_mut().enumerate() {
-        if shared_focus {
+        if shared_focus || llf {
             break;
         }
         if i != W_WRITE && i != W_FLUSH_ACTIVE && *w > 0 && r.chance(1, 5) {
@@ -713,17 +732,23 @@ pub fn gen_run(property: &str, seed: u64, p: &Profile) -> RunSpec {
         fifo_counter: 0,
         fifo_descending: p.fifo && r.chance(1, 2),
         huge_values: r.chance(1, 8),
+        // (not next to a compaction filter: the filter oracle attributes a shown version to its
+        // write by the value, which must then be unique)
+        empty_values: {
+            let thr0 = cfg.blob.as_ref().is_some_and(|b| b.threshold == 0);
+            r.below(6) < if thr0 { 4 } else { 1 } && cfg.filter_fn.is_none()
+        },
     };
     let mut ops = Vec::with_capacity(n_ops);
-    if shared_prelude {
+    if shared_prelude || llf {
         let thr = cfg.blob.as_ref().map_or(8, |b| b.threshold as usize);
-        let n = if shared_focus {
+        let n = if shared_focus || llf {
             (10 + r.usize(14)).min(keys.len())
         } else {
             3 + r.usize(5).min(keys.len().saturating_sub(3))
         };
         // focus runs spread the prelude over the universe, so later overwrites hit single tables
-        let stride = if shared_focus { (keys.len() / n).max(1) } else { 1 };
+        let stride = if shared_focus || llf { (keys.len() / n).max(1) } else { 1 };
         for k in keys.iter().step_by(stride).take(n) {
             st.next_value_id += 1;
             let mut v = format!("v{}:", st.next_value_id).into_bytes();
